@@ -23,7 +23,11 @@
 //!               (definitely-live / definitely-expired / ambiguous = don't-care).
 //!  coord      : sequential programs through the real `DistributedTxCoordinator` (begin,
 //!               handle_prepare + record_vote, commit, abort, complete_abort, cleanup_timeouts with
-//!               three timeout regimes, release_orphaned_locks with planted orphans). A reference
+//!               three timeout regimes, release_orphaned_locks with planted orphans). A shard's
+//!               prepare runs either at the coordinator or at a real remote `TxParticipant` (then
+//!               only the vote and its delta reach the coordinator), and requests carry zero /
+//!               parallel / anti-parallel / orthogonal delta embeddings, so that prepares are also
+//!               refused at the semantic stage that follows the lock stage. A reference
 //!               table key -> grantee judges every vote (held key => conflict naming a holder) and
 //!               every key's holder after every step; after every completion (commit / abort /
 //!               timeout) the transaction must hold no lock and be absent, as waiter and as holder,
@@ -54,7 +58,7 @@ use tensor_chain::consensus::ConsensusManager;
 use tensor_chain::deadlock::{DeadlockDetector, DeadlockDetectorConfig, VictimSelectionPolicy, WaitForGraph};
 use tensor_chain::distributed_tx::{
     DistributedTxConfig, DistributedTxCoordinator, LockManager, PrepareRequest, PrepareVote, SerializableLockState,
-    TxPhase,
+    TxParticipant, TxPhase,
 };
 use tensor_store::SparseVector;
 
@@ -1201,6 +1205,7 @@ fn coord_inner(case_seed: u64, r: &mut Report) -> Result<(u64, bool), Fail> {
     let cfg = DistributedTxConfig { prepare_timeout_ms: [3_600_000, 0, 20][timeout_mode], ..DistributedTxConfig::default() };
     let mut naps = 0;
     let coord = DistributedTxCoordinator::new(ConsensusManager::default_config(), cfg);
+    let parts: Vec<TxParticipant> = vec![TxParticipant::new_in_memory(), TxParticipant::new_in_memory()];
     let nkeys = 3 + rng.below(4);
     let mut txs: Vec<CTx> = Vec::new();
     let mut all_ids: Vec<u64> = Vec::new();
@@ -1320,40 +1325,95 @@ fn coord_inner(case_seed: u64, r: &mut Report) -> Result<(u64, bool), Fail> {
                     let nk = 1 + rng.below(2);
                     let ops: Vec<Transaction> = (0..nk).map(|_| Transaction::Put { key: kname(rng.below(nkeys)), data: vec![1] }).collect();
                     let keys: Vec<String> = ops.iter().map(|o| o.affected_key().to_string()).collect();
-                    let req = PrepareRequest { tx_id: id, coordinator: "c".into(), operations: ops.clone(), delta_embedding: SparseVector::new(4), timeout_ms: 5000 };
-                    let blockers: BTreeSet<u64> = keys.iter().filter_map(|k| held.get(k).copied()).filter(|&t| t != id).collect();
-                    let vote = coord.handle_prepare(&req);
-                    let vs = match &vote {
-                        PrepareVote::Yes { lock_handle, .. } => format!("Yes(h{})", lock_handle),
-                        PrepareVote::Conflict { conflicting_tx, .. } => {
-                            conflicts += 1;
-                            format!("Conflict(tx{})", conflicting_tx)
-                        }
-                        _ => "No".to_string(),
+                    // the delta of the request: zero, or one of a few directions, so that pending
+                    // deltas are sometimes parallel / anti-parallel / orthogonal to a new request
+                    let delta_embedding = match rng.below(6) {
+                        0 | 1 => SparseVector::new(4),
+                        2 => SparseVector::from_dense(&[1.0, 0.0, 0.0, 0.0]),
+                        3 => SparseVector::from_dense(&[0.0, 1.0, 0.0, 0.0]),
+                        4 => SparseVector::from_dense(&[1.0, 1.0, 0.0, 0.0]),
+                        _ => SparseVector::from_dense(&[-1.0, 0.0, 0.0, 0.0]),
                     };
-                    trace.push(format!("prepare(tx{}, shard {}, {:?}) -> {}", id, shard, keys, vs));
-                    match &vote {
-                        PrepareVote::Yes { .. } => {
-                            if !blockers.is_empty() {
-                                return fail(
-                                    "coord:prepare-granted-over-held-key",
-                                    format!("prepare of tx {} on {:?} voted yes although {:?} hold(s) a requested key; program {:?}", id, keys, blockers, trace),
-                                );
+                    let req = PrepareRequest { tx_id: id, coordinator: "c".into(), operations: ops.clone(), delta_embedding, timeout_ms: 5000 };
+                    // the shard's prepare runs either at the coordinator (its LockManager takes
+                    // the key locks) or at a remote participant (only the vote, with its delta,
+                    // reaches the coordinator; the coordinator's lock table is not involved)
+                    let remote = rng.chance(2, 5);
+                    let vote = if remote {
+                        let v = parts[shard].prepare(req.clone());
+                        trace.push(format!("remote prepare(tx{}, shard {}, {:?}) -> {}", id, shard, keys, match &v {
+                            PrepareVote::Yes { lock_handle, .. } => format!("Yes(h{})", lock_handle),
+                            PrepareVote::Conflict { conflicting_tx, .. } => format!("Conflict(tx{})", conflicting_tx),
+                            _ => "No".to_string(),
+                        }));
+                        r.count("coord_op[remote_prepare]", 1);
+                        v
+                    } else {
+                        let blockers: BTreeSet<u64> = keys.iter().filter_map(|k| held.get(k).copied()).filter(|&t| t != id).collect();
+                        let mine_before: BTreeSet<String> = held.iter().filter(|(_, t)| **t == id).map(|(k, _)| k.clone()).collect();
+                        let vote = coord.handle_prepare(&req);
+                        let vs = match &vote {
+                            PrepareVote::Yes { lock_handle, .. } => format!("Yes(h{})", lock_handle),
+                            PrepareVote::Conflict { conflicting_tx, .. } => {
+                                conflicts += 1;
+                                format!("Conflict(tx{})", conflicting_tx)
                             }
-                            for k in &keys {
-                                held.insert(k.clone(), id);
+                            _ => "No".to_string(),
+                        };
+                        trace.push(format!("prepare(tx{}, shard {}, {:?}) -> {}", id, shard, keys, vs));
+                        match &vote {
+                            PrepareVote::Yes { .. } => {
+                                if !blockers.is_empty() {
+                                    return fail(
+                                        "coord:prepare-granted-over-held-key",
+                                        format!("prepare of tx {} on {:?} voted yes although {:?} hold(s) a requested key; program {:?}", id, keys, blockers, trace),
+                                    );
+                                }
+                                for k in &keys {
+                                    held.insert(k.clone(), id);
+                                }
                             }
+                            PrepareVote::Conflict { conflicting_tx, .. } => {
+                                if !blockers.is_empty() {
+                                    if !blockers.contains(conflicting_tx) {
+                                        return fail("coord:conflict-vote-names-non-holder", format!("prepare of tx {} on {:?} names tx {}, holders are {:?}; program {:?}", id, keys, conflicting_tx, blockers, trace));
+                                    }
+                                } else {
+                                    // no key was held: refused at the semantic stage (after the lock
+                                    // stage). Whether that refusal is justified is not judged.
+                                    r.count("coord_semantic_refusals", 1);
+                                }
+                                // all-or-nothing, refusal side: a refused prepare was granted nothing
+                                for k in &keys {
+                                    if !mine_before.contains(k) && coord.lock_manager().lock_holder(k) == Some(id) {
+                                        return fail(
+                                            "coord:refused-prepare-still-holds-requested-key",
+                                            format!(
+                                                "prepare of tx {} on {:?} was refused ({}) but lock_holder({}) = tx {} and keys_for_transaction = {:?}; program {:?}",
+                                                id,
+                                                keys,
+                                                vs,
+                                                k,
+                                                id,
+                                                coord.lock_manager().keys_for_transaction(id),
+                                                trace
+                                            ),
+                                        );
+                                    }
+                                }
+                                // the statement is silent on whether a refusal may drop what the
+                                // transaction held from an earlier shard's prepare: adopt what is there
+                                for k in &mine_before {
+                                    if coord.lock_manager().lock_holder(k).is_none() {
+                                        held.remove(k);
+                                        r.count("coord_refusal_dropped_earlier_grant", 1);
+                                    }
+                                }
+                            }
+                            _ => {}
                         }
-                        PrepareVote::Conflict { conflicting_tx, .. } => {
-                            if blockers.is_empty() {
-                                return fail("coord:conflict-vote-without-any-holder", format!("prepare of tx {} on {:?} voted conflict (tx {}) but nobody else holds a requested key; program {:?}", id, keys, conflicting_tx, trace));
-                            }
-                            if !blockers.contains(conflicting_tx) {
-                                return fail("coord:conflict-vote-names-non-holder", format!("prepare of tx {} on {:?} names tx {}, holders are {:?}; program {:?}", id, keys, conflicting_tx, blockers, trace));
-                            }
-                        }
-                        _ => {}
-                    }
+                        vote
+                    };
                     let rv = coord.record_vote(id, shard, vote);
                     txs[idx].voted.insert(shard);
                     trace.push(format!("record_vote(tx{}, shard {}) -> {:?}", id, shard, rv));
@@ -1367,6 +1427,9 @@ fn coord_inner(case_seed: u64, r: &mut Report) -> Result<(u64, bool), Fail> {
                         txs.remove(idx);
                         held.retain(|_, t| *t != id);
                         completions += 1;
+                        for p in &parts {
+                            let _ = p.commit(id);
+                        }
                         completed(id, "commit", &all_ids, &trace, &mut soft, r)?;
                     }
                 }
@@ -1378,6 +1441,9 @@ fn coord_inner(case_seed: u64, r: &mut Report) -> Result<(u64, bool), Fail> {
                         txs.remove(idx);
                         held.retain(|_, t| *t != id);
                         completions += 1;
+                        for p in &parts {
+                            let _ = p.abort(id);
+                        }
                         completed(id, "abort", &all_ids, &trace, &mut soft, r)?;
                     }
                 }
@@ -1389,6 +1455,9 @@ fn coord_inner(case_seed: u64, r: &mut Report) -> Result<(u64, bool), Fail> {
                         txs.remove(idx);
                         held.retain(|_, t| *t != id);
                         completions += 1;
+                        for p in &parts {
+                            let _ = p.abort(id);
+                        }
                         completed(id, "abort", &all_ids, &trace, &mut soft, r)?;
                     }
                 }
@@ -1410,6 +1479,9 @@ fn coord_inner(case_seed: u64, r: &mut Report) -> Result<(u64, bool), Fail> {
                         txs.retain(|x| x.id != t);
                         held.retain(|_, o| *o != t);
                         completions += 1;
+                        for p in &parts {
+                            let _ = p.abort(t);
+                        }
                         completed(t, "timeout", &all_ids, &trace, &mut soft, r)?;
                     }
                 }
@@ -1994,6 +2066,8 @@ fn main() {
         if want("coord") {
             floors.push(("coord_programs", 500));
             floors.push(("coord_conflict_votes", 200));
+            floors.push(("coord_semantic_refusals", 30));
+            floors.push(("coord_op[remote_prepare]", 500));
             floors.push(("coord_completions[commit]", 100));
             floors.push(("coord_completions[abort]", 300));
         }
